@@ -4,9 +4,9 @@
    kernel-checked instance obligations over it.
    F, r32 (what a float32 cell keeps), rint (python int()), cval (the numbers 0, 1, 1/2, -1), ofnat, weq (==) stand for
    numpy / PyTables / python and are universally quantified with the hypotheses written out in every statement. *)
-From Coq Require Import String List Bool Permutation.
+From Coq Require Import String List Bool Permutation ZArith.
 From LNML Require Import Model.H5 Proofs.H5P.
-From Run Require Import Gen_C05 Inst_C05_layout Inst_C05_stores Inst_C05_groups Inst_C05_builder Inst_C05_refuse.
+From Run Require Import Gen_C05 Inst_C05_layout Inst_C05_stores Inst_C05_select Inst_C05_groups Inst_C05_builder Inst_C05_refuse.
 Import ListNotations.
 Open Scope string_scope.
 
@@ -76,6 +76,16 @@ Theorem C05_roundtrip_partial :
                 out = sem_rows F cval weq kind (map (fun r => sem32_of F r32 kind (snd r)) rows).
 Proof. exact (gen_select_roundtrip gen all_layouts all_stores). Qed.
 Print Assumptions C05_roundtrip_partial.
+
+(* the select_table of the theorem above IS the decision the code takes: on every probe of the real exportHdf5 methods (every
+   kind and row variant; no field, each single field, all fields off their semantic default; the deciding row first / later /
+   in the other element list; exact instance F = Z/1024, r32 = int() = identity) it picks a table with exactly the column
+   names the code wrote.  (select_covers: every defaultable field of every kind has been probed alone.) *)
+Theorem C05_select :
+  forall p, In p (g_select gen) ->
+  exists wt, select_table Z zc Z.eqb gen (sp_kind p) (probe_rows p) = Some wt /\ wt_names wt = sp_names p.
+Proof. exact (gen_select gen select). Qed.
+Print Assumptions C05_select.
 
 (* any number of constructs in one file: each is written under its own group with its group attributes and its table; the
    reader meets the groups in PyTables' order (an arbitrary rearrangement `order`); what is loaded is, up to that
